@@ -102,6 +102,7 @@ def run_task(task):
                         rec["smt2"] = solve.smt2_of(ctx, ob)[:20000]
                 out["obligations"].append(rec)
         out["hashes"] = dict(I.repo.used_hashes)
+        out["renamed_locals"] = dict(getattr(I.repo, "renamed_locals", {}) or {})
     except Exception as e:  # Unsupported and engine bugs alike: checker error
         out["error"] = f"{type(e).__name__}: {e}"
         out["traceback"] = traceback.format_exc()[-3000:]
